@@ -134,10 +134,33 @@ def coq_world(nodes):
 
 # ---------------------------------------------------------------- the GIR linter (clauses of the property judged on any GIR)
 
+def stub_defined(root, S):
+    """NS.Name for every definition of the stub namespaces Mid, Base and FooExt that the document includes (directly or through
+    another stub); GLib, GObject and Gio stubs are partial and accepted as a whole"""
+    import xml.etree.ElementTree as ET
+    here = os.path.join(os.path.dirname(os.path.abspath(__file__)), 'stubgir')
+    todo = [(i.get('name'), i.get('version')) for i in root.findall(S.CORE + 'include')]
+    seen, out = set(), set()
+    while todo:
+        n, v = todo.pop()
+        f = os.path.join(here, '%s-%s.gir' % (n, v))
+        if (n, v) in seen or not os.path.exists(f):
+            continue
+        seen.add((n, v))
+        r = ET.parse(f).getroot()
+        todo += [(i.get('name'), i.get('version')) for i in r.findall(S.CORE + 'include')]
+        ns = r.find(S.CORE + 'namespace')
+        for el in ns:
+            if el.get('name'):
+                out.add('%s.%s' % (n, el.get('name')))
+    return out
+
+
 def lint(root, S, known_external):
     """yields (message, detail) for every breach of C05 found in a GIR document"""
     from giscanner import ast
     ns = root.find(S.CORE + 'namespace')
+    stub_names = stub_defined(root, S)
     fundamentals = set(t.target_fundamental for t in ast.INTROSPECTABLE_BASIC) | {'none', 'gpointer', 'GType', 'utf8', 'filename', 'gunichar'}
     banned = {'va_list', 'long long', 'unsigned long long', 'long double'}
     defs = {}
@@ -173,7 +196,7 @@ def lint(root, S, known_external):
                 if not [c for c in t if c.tag in (S.CORE + 'type', S.CORE + 'array')]:
                     yield ('an introspectable %s has a list without element type' % what, owner.get('name'))
             elif '.' in name:
-                if name not in known_external and name.split('.')[0] not in ('GLib', 'GObject', 'Gio', 'Mid', 'Base'):
+                if name not in known_external and name not in stub_names and name.split('.')[0] not in ('GLib', 'GObject', 'Gio'):
                     yield ('an introspectable %s refers to %s, which no included namespace defines' % (what, name), owner.get('name'))
             else:
                 d = defs.get(name)
@@ -305,6 +328,27 @@ def accessor_world(rng, S, ET):
             comments.append(('/**\n * FooAcc:%s: (%s %s)\n *\n * A property.\n */' % (p, rng.choice(['setter', 'getter']),
                                                                                    rng.choice(['set_' + u, 'get_' + u, 'other_thing'])), '/src/foo.c', cline))
             cline += 10
+    # values without a default ownership: functions and callback types returning (or taking as out parameter) a pointer to a
+    # plain structure or union, to a class, to a list, with and without a (transfer) annotation
+    syms += [S.FS(S.CSYMBOL_TYPE_TYPEDEF, 'FooPlain', base_type=S.FT(S.CTYPE_STRUCT, '_FooPlain'), line=200),
+             S.FS(S.CSYMBOL_TYPE_STRUCT, '_FooPlain', base_type=S.FT(S.CTYPE_STRUCT, '_FooPlain', child_list=[
+                 S.FS(S.CSYMBOL_TYPE_MEMBER, 'x', base_type=S.td('gint'), line=201)]), line=201),
+             S.FS(S.CSYMBOL_TYPE_TYPEDEF, 'FooPlainU', base_type=S.FT(S.CTYPE_UNION, '_FooPlainU'), line=205),
+             S.FS(S.CSYMBOL_TYPE_UNION, '_FooPlainU', base_type=S.FT(S.CTYPE_UNION, '_FooPlainU', child_list=[
+                 S.FS(S.CSYMBOL_TYPE_MEMBER, 'x', base_type=S.td('gint'), line=206)]), line=206)]
+    for i in range(rng.randint(2, 6)):
+        rt = rng.choice(['FooPlain', 'FooPlainU', 'FooAcc', 'GList', 'GObject', 'GHashTable'])
+        ann = rng.choice(['', '', '(transfer none)', '(transfer full)', '(transfer container)' if rt in ('GList', 'GHashTable') else ''])
+        if rt in ('GList', 'GHashTable') and ann:
+            ann += ' (element-type utf8 utf8)' if rt == 'GHashTable' else ' (element-type utf8)'
+        name = 'foo_acc_make_%d' % i
+        if rng.random() < 0.5:
+            syms.append(S.func(name, S.ptr(S.td(rt)), [S.param('n', S.td('gint'))], line=210 + i))
+            comments.append(('/**\n * %s:\n * @n: a number\n *\n * Returns: %sthe value\n */' % (name, ann + ': ' if ann else ''), '/src/foo.c', cline))
+        else:
+            syms.append(S.func(name, S.VOID, [S.param('out_value', S.ptr(S.ptr(S.td(rt))))], line=210 + i))
+            comments.append(('/**\n * %s:\n * @out_value: (out)%s: the value\n */' % (name, ' ' + ann if ann else ''), '/src/foo.c', cline))
+        cline += 10
     dump = ('<?xml version="1.0"?><dump><class name="FooAcc" get-type="foo_acc_get_type" parents="GObject">'
             + ''.join('<property name="%s" type="%s" flags="%d"/>' % (p, 'gboolean' if p in ('visible', 'is-active') else 'gint', rng.choice([3, 3, 1, 11]))
                       for p in props) + '</class></dump>')
